@@ -127,7 +127,7 @@ def run(ctx):
             ab = rng.choice(sorted(k for k, v in unamb.items() if v))
             tz_min = dtcat.ABBR[ab]
             targ = "-t=" + ab
-        shape = rng.choice(["a", "b", "ab", "a@b", "b@a", "nowa", "nowb", "now-ab"])
+        shape = rng.choice(["a", "b", "ab", "a@b", "b@a", "nowa", "nowb", "now-ab", "nowb@a", "nowa@b"])
         sa = sb = None
         ea = eb = None
         ca = cb = "-"
@@ -160,6 +160,18 @@ def run(ctx):
         if shape == "now-ab":
             txt, secs, units = gen_duration(rng)
             sb, rel_b, cb = "+" + txt, secs, "now+:" + units
+        if shape == "nowb@a":
+            # -b relative to the program's start, -a relative to that -b
+            txt, secs, units = gen_duration(rng)
+            sign = rng.choice("+-")
+            sb, rel_b, cb = sign + txt, secs if sign == "+" else -secs, "now%s:%s" % (sign, units)
+            txt2, secs2, units2 = gen_duration(rng)
+            sa, rel_a, ca = "@-" + txt2, rel_b - secs2, "@-of-now:" + units2
+        if shape == "nowa@b":
+            txt, secs, units = gen_duration(rng)
+            sa, rel_a, ca = "-" + txt, -secs, "now-:" + units
+            txt2, secs2, units2 = gen_duration(rng)
+            sb, rel_b, cb = "@+" + txt2, rel_a + secs2, "@+of-now:" + units2
         argv = [targ]
         if sa is not None:
             argv += ["-a=" + sa] if sa.startswith("-") or sa.startswith("@-") else ["-a", sa]
